@@ -28,6 +28,21 @@ def run(chk, repo, tier):
                        "formal domain (running point = integer multiple of Q, Miller value = formal product of line evaluations) "
                        "and replayed against the lock-step schema; the loop scalar and the final exponent are compared with values "
                        "derived from the curve parameters.")
+    # restate C13
+    from . import C13 as _dep_C13
+    from ..report import SubCheck as _SubCheck
+    chk.rule("C05.R4", "the group law under the pairing arguments (sums of points, any projective representative): C13's obligations for the optimized curve and line functions re-stated", 60)
+    _sub = _SubCheck()
+    _err = None
+    try:
+        _dep_C13.run(_sub, repo, tier)
+    except AnalysisError as _e:
+        _err = _e
+    for _rule, _construct, _key, _ok, _detail, _where in _sub.obs:
+        if True:
+            chk.ob("C05.R4", _construct, f"[{_rule}] {_key}", _ok, _detail, _where)
+    if _err is not None and all(o[3] for o in _sub.obs):
+        raise _err
     chk.rule("C05.R1", "is_on_curve(Q, b2) and is_on_curve(P, b) (the module's own coefficients) dominate the Miller loop; the false edges raise", 4)
     chk.rule("C05.R2", "an infinity argument yields FQ12.one() without evaluating any line function; no other caller of miller_loop", 4 * 2)
     chk.rule("C05.R3", "lock-step Miller loop: every line is through the running point and the point then added/doubled, f ← f²·ℓ / f·ℓ, "
@@ -77,6 +92,9 @@ def run(chk, repo, tier):
                     if not is_one(p.value) or any(ev["kind"] == "miller" for ev in p.events):
                         probs.append(f"infinity argument: returns {show(p.value)[:60]} (Miller loop evaluated: "
                                      f"{any(ev['kind'] == 'miller' for ev in p.events)})")
+                if (infP or infQ) and p.outcome == "raise" and has(facts, onQ, True) and has(facts, onP, True):
+                    probs.append(f"infinity argument (on-curve tests passed): raises {p.value.clsname()} at {p.value.where} "
+                                 "instead of returning one")
             # every Miller sink must know both z != 0
             for p in paths:
                 for ev in p.events:
